@@ -3,7 +3,7 @@
   Models: PS/Model/Prob.lean (tagged_det_grammar.py, tagged_u_grammar.py) on top of
   PS/Model/Grammar.lean (det_grammar.py / ttcfg.py), PS/Model/Cfg.lean (`CFG.programs`) and
   PS/Model/Ucfg.lean (u_grammar.py / u_cfg.py).  Lemmas: PS/Proofs/{Lang, ProbDet, Mass,
-  Programs, Ucfg, UMass}.lean.
+  Programs, Ucfg, UMass, UOps}.lean.
 
   Statement: the probability reported for a program is the product of the probabilities of the
   rules of its unique derivation (times the probability of its start symbol when there are
@@ -25,6 +25,7 @@ import PS.Proofs.Mass
 import PS.Proofs.Programs
 import PS.Proofs.Ucfg
 import PS.Proofs.UMass
+import PS.Proofs.UOps
 namespace PS.G
 open PS
 
@@ -244,6 +245,33 @@ theorem C04_sum_one_u_partial (G : UCFG U) (tg : UTags U) (hn : NormalisedU G tg
     rw [hs']; exact hw
   rw [he]; exact h
 
+/-- **uniform()** for unambiguous grammars is normalised (every alternative of a non-terminal gets
+    1/(number of alternatives of that non-terminal), every start symbol 1/(number of starts)) -/
+theorem C04_uniform_u_normalised (G : UCFG U) (hk : (AList.keys G.rules).Nodup)
+    (hr : ∀ e ∈ G.rules, (AList.keys e.2).Nodup ∧ (∃ r ∈ e.2, r.2 ≠ []) ∧ ∀ r ∈ e.2, r.2.Nodup)
+    (hs : G.starts.Nodup) (hne : G.starts ≠ []) :
+    NormalisedU G (uniformU G) ∧ (G.starts.map (startWeight (uniformU G))).sum = 1 :=
+  ⟨Ops.uniformU_normalised G hk hr, Ops.uniformU_starts G hs hne⟩
+
+omit [DecidableEq U] in
+/-- **normalise()** for unambiguous grammars: a row with non-zero total sums to 1 afterwards, and
+    so do the start weights -/
+theorem C04_normalise_u (tg : UTags U) :
+    (∀ e ∈ (normaliseU tg).tags, ∃ e' ∈ tg.tags, e.1 = e'.1 ∧ (rowSumU e'.2 ≠ 0 → rowSumU e.2 = 1)) ∧
+    ((tg.startTags.map (·.2)).sum ≠ 0 → ((normaliseU tg).startTags.map (·.2)).sum = 1) :=
+  ⟨Ops.rowSumU_normaliseU tg, Ops.startSum_normaliseU tg⟩
+
+/-- **counting** derivations -/
+theorem C04_count_u (G : UCFG U) (k : Nat) (nt : UNT U) : countU G k nt = (langU G k nt).length :=
+  Ops.countU_eq_length G k nt
+
+/-- **`UCFG.programs()`** (memoised recursion): on a finite grammar the number returned is the
+    number of derivations from the start symbols (= programs, when unambiguous) -/
+theorem C04_programs_u (G : UCFG U) (fuel n k : Nat) (h : programs G fuel = some n)
+    (hb : ∀ s ∈ G.starts, boundedU G k s = true) :
+    n = (G.starts.map (fun s => (langU G k s).length)).sum :=
+  Ops.programs_eq_length G fuel n k h hb
+
 /-! ### non-vacuity and the recorded finding -/
 namespace Ex04
 def int : Ty := .base "int"
@@ -266,7 +294,7 @@ open Ex04 in
     uniform weights, a language of two programs -/
 example : unambiguousOn G1 tfa = true ∧ startWeight (uniformU G1) q1 = 1 ∧
     probabilityU G1 (uniformU G1) tfa = 1/2 ∧ probU G1 (uniformU G1) tfa = 1/2 ∧
-    langU G1 2 q1 = [tb, tfa] ∧ boundedU G1 2 q1 = true := by
+    langU G1 2 q1 = [tb, tfa] ∧ boundedU G1 2 q1 = true ∧ programs G1 5 = some 2 ∧ programs G2 5 = some 3 := by
   decide +kernel
 
 open Ex04 in
